@@ -318,8 +318,9 @@ func lookupOrder(c *Ctx, r *Report) {
 					case isNil && ne && derives(other, found):
 						kind = "found"
 					case isNil && eq && IsCallTo2(other, cfgRoot):
-						if kind == "" {
-							kind = "no tree"
+						// a configuration without a tree — Env(nil) — has nothing to offer; it is no reason to stop
+						if why == "" {
+							why = "the configuration asked is nil (Env(nil))"
 						}
 					case !isNil && (isCount(bo.X) || isCount(bo.Y)):
 						if kind == "" {
